@@ -34,7 +34,7 @@ def run(ctx: evid.Ctx) -> None:
             ctx.violation(k, e["what"], {"role": role, "K": 10**9, "history": [list(x) for x in e["history"]]}, e["count"])
     # the TLA+ model of the documented life cycle: TLC checks the clauses on the model, the product search binds it to the code
     tlalc.check(ctx, PROP, ROLES, 3 if ctx.tier == "thorough" else 2)
-    if ctx.tier == "thorough":
+    if ctx.tier == "thorough" and not any(k.endswith("_SKIPPED") for k in ctx.notes):
         # the clauses TLC checks are not vacuous: every listed edit of the model must be rejected on the expected clause
         rejected, problems = tlalc.model_sensitivity()
         ctx.add("model_edits_rejected_by_tlc", rejected)
